@@ -22,6 +22,21 @@ fn main() {
         std::process::exit(2);
     }
     let facet = args[1].clone();
+    if facet == "probe" {
+        // development aid: evaluate source texts under the standard bindings, print result + call log
+        let users = vec![("tick".to_string(), api::UserFn::Arg0)];
+        for src in &args[2..] {
+            let binds = gen::std_bindings(0);
+            match api::compile(src) {
+                Ok(p) => {
+                    let o = api::exec_full(&[("main".to_string(), p.clone())], "main", &binds, &users);
+                    println!("{}\n  => {} {}\n  code {}", src, o.obs, o.log, api::code_wire(&p));
+                }
+                Err(e) => println!("{}\n  => compile {}", src, e),
+            }
+        }
+        return;
+    }
     let mut opts = Opts {
         thorough: false,
         seed: 1,
@@ -68,6 +83,7 @@ fn main() {
         "C04" => facets::c04::run(&opts),
         "C10" => facets::c10::run(&opts),
         "C05" => facets::c05::run(&opts),
+        "C08" => facets::c08::run(&opts),
         other => {
             eprintln!("unknown facet {}", other);
             std::process::exit(2)
